@@ -1,13 +1,931 @@
-//! Set operations (C13) - dispatch.
+//! Set operations (C13 and the set halves of C05/C06/C08/C09).
 
-use crate::elems::{KeyT, ValT};
+use crate::alloc;
+use crate::ctx::{self, ObjState};
+use crate::elems::{ElemClass, KeyT, ValT};
 use crate::exec::*;
+use crate::exec_map::two_mut;
+use crate::hasher::SimHasher;
 use crate::ops::*;
 use crate::world::*;
+use griddle::hash_map::{VerifLoc, VerifState};
+use std::any::Any;
+use std::collections::{BTreeMap, BTreeSet};
+
+fn tables_of(st: &VerifState) -> i64 {
+    (st.main_buckets > 1) as i64 + st.split as i64
+}
+
+fn rearm(st: &VerifState) -> Option<u64> {
+    if st.split && st.old_len > 0 {
+        Some(((st.old_len + st.r - 1) / st.r.max(1)) as u64)
+    } else {
+        None
+    }
+}
+
+impl<K: KeyT> SetSlot<K> {
+    pub fn resolve_key(&self, k: &KeySel) -> u32 {
+        match *k {
+            KeySel::Kv(kv) => kv,
+            KeySel::Old(rank, fb) | KeySel::Main(rank, fb) => {
+                let want_old = matches!(k, KeySel::Old(..));
+                let st = self.s.verif_state();
+                if want_old && !st.split {
+                    return fb;
+                }
+                let n = self.model.len();
+                if n == 0 {
+                    return fb;
+                }
+                let start = (rank as usize).wrapping_mul(7) % n;
+                let mut found: Vec<(usize, u32)> = Vec::new();
+                for (i, (&kv, _)) in self.model.iter().cycle().skip(start).take(n.min(48)).enumerate() {
+                    let probe = K::probe(kv);
+                    match self.s.verif_locate(&probe) {
+                        VerifLoc::Old { rank: r, .. } if want_old => found.push((r.unwrap_or(usize::MAX - i), kv)),
+                        VerifLoc::Main if !want_old => found.push((i, kv)),
+                        _ => {}
+                    }
+                }
+                if found.is_empty() {
+                    return fb;
+                }
+                found.sort();
+                found[(rank as usize) % found.len()].1
+            }
+        }
+    }
+
+    pub fn eval_pred(&self, pred: &Pred) -> BTreeSet<u32> {
+        let mut s = BTreeSet::new();
+        for (&kv, _) in self.model.iter() {
+            let t = match *pred {
+                Pred::None => false,
+                Pred::All => true,
+                Pred::Mask(seed, pct) => pred_mask(seed, pct, kv),
+                Pred::OldOnly | Pred::MainOnly => {
+                    let probe = K::probe(kv);
+                    let in_old = matches!(self.s.verif_locate(&probe), VerifLoc::Old { .. });
+                    in_old == matches!(pred, Pred::OldOnly)
+                }
+            };
+            if t {
+                s.insert(kv);
+            }
+        }
+        s
+    }
+
+    fn in_old(&self, kv: u32) -> bool {
+        let probe = K::probe(kv);
+        matches!(self.s.verif_locate(&probe), VerifLoc::Old { .. })
+    }
+}
+
+fn mark_forgotten(ids: impl Iterator<Item = u64>) {
+    ctx::with(|c| {
+        for id in ids {
+            if id != 0 {
+                if let Some(o) = c.ledger.get_mut(&id) {
+                    if o.state == ObjState::Live {
+                        o.state = ObjState::Forgotten;
+                    }
+                }
+            }
+        }
+    });
+}
 
 impl<K: KeyT, V: ValT> World<K, V> {
     pub(crate) fn dispatch_set(&mut self, acc: &mut Acc, op: &Op) {
-        let _ = op;
-        acc.out.res = "unimplemented".to_string();
+        match op {
+            Op::SInsert { s, k } | Op::SReplace { s, k } | Op::SGetOrInsert { s, k } | Op::SGetOrInsertOwned { s, k } | Op::SGetOrInsertWith { s, k } => {
+                let si = *s as usize;
+                let kv = self.sets[si].resolve_key(k);
+                let before = self.sets[si].s.verif_state();
+                let present = self.sets[si].model.get(&kv).copied();
+                let slot = &mut self.sets[si];
+                let mut wrong: Option<String> = None;
+                let mut new_kid: Option<u64> = None;
+                let co = call(|| match op {
+                    Op::SInsert { .. } => {
+                        let key = K::make(kv);
+                        new_kid = Some(key.oid());
+                        let r = sut(|| slot.s.insert(key));
+                        if r != present.is_none() {
+                            wrong = Some(format!("set insert({}) = {} expected {}", kv, r, present.is_none()));
+                        }
+                        if present.is_some() {
+                            new_kid = None;
+                        }
+                        format!("{}", r)
+                    }
+                    Op::SReplace { .. } => {
+                        let key = K::make(kv);
+                        new_kid = Some(key.oid());
+                        let r = sut(|| slot.s.replace(key));
+                        match (&r, present) {
+                            (Some(old), Some(kid)) => {
+                                old.check("set replace");
+                                if old.kv() != kv || (old.oid() != 0 && old.oid() != kid) {
+                                    wrong = Some(format!("set replace({}) returned {} id {} expected id {}", kv, old.kv(), old.oid(), kid));
+                                }
+                            }
+                            (None, None) => {}
+                            (a, b) => wrong = Some(format!("set replace({}): is_some={} expected is_some={}", kv, a.is_some(), b.is_some())),
+                        }
+                        format!("{}", r.is_some())
+                    }
+                    _ => {
+                        let made: std::cell::Cell<Option<u64>> = std::cell::Cell::new(None);
+                        let r: &K = match op {
+                            Op::SGetOrInsert { .. } => {
+                                let key = K::make(kv);
+                                made.set(Some(key.oid()));
+                                sut(|| slot.s.get_or_insert(key))
+                            }
+                            Op::SGetOrInsertOwned { .. } => {
+                                let probe = K::probe(kv);
+                                let r = sut(|| slot.s.get_or_insert_owned(&probe));
+                                // the probe must outlive nothing: `r` borrows only the set
+                                unsafe { &*(r as *const K) }
+                            }
+                            _ => {
+                                let probe = K::probe(kv);
+                                let r = sut(|| {
+                                    slot.s.get_or_insert_with(&probe, |q| {
+                                        closure_body(|| {
+                                            let key = K::make(q.kv());
+                                            made.set(Some(key.oid()));
+                                            key
+                                        })
+                                    })
+                                });
+                                unsafe { &*(r as *const K) }
+                            }
+                        };
+                        r.check("get_or_insert*");
+                        match present {
+                            Some(kid) => {
+                                if r.kv() != kv || (r.oid() != 0 && r.oid() != kid) {
+                                    wrong = Some(format!("get_or_insert*({}) on a present element returned {} id {} expected id {}", kv, r.kv(), r.oid(), kid));
+                                }
+                            }
+                            None => {
+                                if r.kv() != kv || (r.oid() != 0 && made.get().is_some() && Some(r.oid()) != made.get()) {
+                                    wrong = Some(format!("get_or_insert*({}) on an absent element returned {} id {}", kv, r.kv(), r.oid()));
+                                }
+                                new_kid = Some(r.oid());
+                            }
+                        }
+                        format!("{}", r.kv())
+                    }
+                });
+                let stats = (co.hashes, co.alloc.allocs);
+                match co.result {
+                    Ok(sres) => {
+                        acc.out.res = sres;
+                        if let Some(w) = wrong {
+                            acc.wrong(w);
+                        }
+                        match op {
+                            Op::SReplace { .. } => {
+                                slot.model.insert(kv, new_kid.unwrap_or(0));
+                            }
+                            _ => {
+                                if present.is_none() {
+                                    slot.model.insert(kv, new_kid.unwrap_or(0));
+                                }
+                            }
+                        }
+                        let cost = if present.is_none() || matches!(op, Op::SInsert { .. }) { Cost::KeyAdding } else { Cost::Constant };
+                        self.post_set(acc, si, before, stats, cost, present.is_none(), 0, false);
+                    }
+                    Err(pn) => self.handle_panic(acc, pn, &[]),
+                }
+            }
+            Op::SRemove { s, k } | Op::STake { s, k } | Op::SGet { s, k } | Op::SContains { s, k } => {
+                let si = *s as usize;
+                let kv = self.sets[si].resolve_key(k);
+                let before = self.sets[si].s.verif_state();
+                let present = self.sets[si].model.get(&kv).copied();
+                let removing = matches!(op, Op::SRemove { .. } | Op::STake { .. });
+                let was_old = removing && present.is_some() && self.sets[si].in_old(kv);
+                let probe = K::probe(kv);
+                let slot = &mut self.sets[si];
+                let mut wrong: Option<String> = None;
+                let co = call(|| match op {
+                    Op::SRemove { .. } => {
+                        let r = sut(|| slot.s.remove(&probe));
+                        if r != present.is_some() {
+                            wrong = Some(format!("set remove({}) = {} expected {}", kv, r, present.is_some()));
+                        }
+                        format!("{}", r)
+                    }
+                    Op::STake { .. } => {
+                        let r = sut(|| slot.s.take(&probe));
+                        match (&r, present) {
+                            (Some(x), Some(kid)) => {
+                                x.check("set take");
+                                if x.kv() != kv || (x.oid() != 0 && x.oid() != kid) {
+                                    wrong = Some(format!("set take({}) returned {} id {} expected id {}", kv, x.kv(), x.oid(), kid));
+                                }
+                            }
+                            (None, None) => {}
+                            (a, b) => wrong = Some(format!("set take({}): is_some={} expected is_some={}", kv, a.is_some(), b.is_some())),
+                        }
+                        format!("{}", r.is_some())
+                    }
+                    Op::SGet { .. } => {
+                        let r = sut(|| slot.s.get(&probe));
+                        match (r, present) {
+                            (Some(x), Some(kid)) => {
+                                x.check("set get");
+                                if x.kv() != kv || (x.oid() != 0 && x.oid() != kid) {
+                                    wrong = Some(format!("set get({}) returned {} id {} expected id {}", kv, x.kv(), x.oid(), kid));
+                                }
+                            }
+                            (None, None) => {}
+                            (a, b) => wrong = Some(format!("set get({}): is_some={} expected is_some={}", kv, a.is_some(), b.is_some())),
+                        }
+                        format!("{}", r.is_some())
+                    }
+                    _ => {
+                        let r = sut(|| slot.s.contains(&probe));
+                        if r != present.is_some() {
+                            wrong = Some(format!("set contains({}) = {} expected {}", kv, r, present.is_some()));
+                        }
+                        format!("{}", r)
+                    }
+                });
+                let stats = (co.hashes, co.alloc.allocs);
+                match co.result {
+                    Ok(sres) => {
+                        acc.out.res = sres;
+                        if let Some(w) = wrong {
+                            acc.wrong(w);
+                        }
+                        if removing {
+                            slot.model.remove(&kv);
+                        }
+                        self.post_set(acc, si, before, stats, Cost::Constant, false, was_old as usize, false);
+                    }
+                    Err(pn) => self.handle_panic(acc, pn, &[]),
+                }
+            }
+            Op::SRetain { s, pred } => {
+                let si = *s as usize;
+                let before = self.sets[si].s.verif_state();
+                let keep = self.sets[si].eval_pred(pred);
+                let slot = &mut self.sets[si];
+                let mut log: Vec<u32> = Vec::new();
+                let co = call(|| {
+                    sut(|| {
+                        slot.s.retain(|k| {
+                            closure_body(|| {
+                                k.check("set retain");
+                                log.push(k.kv());
+                                keep.contains(&k.kv())
+                            })
+                        })
+                    })
+                });
+                let stats = (co.hashes, co.alloc.allocs);
+                match co.result {
+                    Ok(()) => {
+                        log.sort_unstable();
+                        let want: Vec<u32> = slot.model.keys().copied().collect();
+                        if log != want {
+                            acc.anomaly("partition-mismatch", format!("set retain called the predicate on {:?}, elements present were {:?}", log, want));
+                            acc.out.fatal = true;
+                        }
+                        slot.model.retain(|kv, _| keep.contains(kv));
+                        acc.out.res = format!("kept {}", slot.model.len());
+                        self.post_set(acc, si, before, stats, Cost::Exempt, false, 0, true);
+                    }
+                    Err(pn) => self.handle_panic(acc, pn, &[]),
+                }
+            }
+            Op::SDrainFilter { s, pred, consume } => {
+                let si = *s as usize;
+                let before = self.sets[si].s.verif_state();
+                let take = self.sets[si].eval_pred(pred);
+                let slot = &mut self.sets[si];
+                let model = &slot.model;
+                let mut log: Vec<u32> = Vec::new();
+                let mut yielded: Vec<u32> = Vec::new();
+                let mut wrong: Vec<String> = Vec::new();
+                let limit = match consume {
+                    Consume::All => usize::MAX,
+                    Consume::DropAfter(k) | Consume::ForgetAfter(k) => *k as usize,
+                };
+                let co = call(|| {
+                    let mut df = sut(|| {
+                        slot.s.drain_filter(|k| {
+                            closure_body(|| {
+                                k.check("set drain_filter");
+                                log.push(k.kv());
+                                take.contains(&k.kv())
+                            })
+                        })
+                    });
+                    while yielded.len() < limit {
+                        match sut(|| df.next()) {
+                            Some(k) => {
+                                k.check("set drain_filter yield");
+                                match model.get(&k.kv()) {
+                                    Some(&kid) if take.contains(&k.kv()) && !yielded.contains(&k.kv()) && (k.oid() == 0 || k.oid() == kid) => {}
+                                    _ => wrong.push(format!("set drain_filter yielded {} unexpectedly", k.kv())),
+                                }
+                                yielded.push(k.kv());
+                            }
+                            None => break,
+                        }
+                    }
+                    match consume {
+                        Consume::ForgetAfter(_) => std::mem::forget(df),
+                        _ => sut(|| drop(df)),
+                    }
+                });
+                let stats = (co.hashes, co.alloc.allocs);
+                match co.result {
+                    Ok(()) => {
+                        for w in wrong {
+                            acc.anomaly("partition-mismatch", w);
+                            acc.out.fatal = true;
+                        }
+                        let forget = matches!(consume, Consume::ForgetAfter(_));
+                        let mut sorted = log.clone();
+                        sorted.sort_unstable();
+                        let all: Vec<u32> = slot.model.keys().copied().collect();
+                        let dup = sorted.windows(2).any(|w| w[0] == w[1]);
+                        if dup || sorted.iter().any(|k| !slot.model.contains_key(k)) || (!forget && sorted != all) {
+                            acc.anomaly("partition-mismatch", format!("set drain_filter predicate call log {:?} vs elements {:?} (forget={})", sorted, all, forget));
+                            acc.out.fatal = true;
+                        }
+                        let yset: BTreeSet<u32> = yielded.iter().copied().collect();
+                        if matches!(consume, Consume::All) && yset.len() != slot.model.keys().filter(|k| take.contains(k)).count() {
+                            acc.anomaly("partition-mismatch", format!("set drain_filter yielded {} elements, {} selected", yset.len(), take.len()));
+                            acc.out.fatal = true;
+                        }
+                        slot.model.retain(|kv, _| if forget { !yset.contains(kv) } else { !take.contains(kv) });
+                        let after = slot.s.verif_state();
+                        if before.split && before.old_len > 0 && after.split && after.old_len == 0 {
+                            acc.internal("progress-empty-old-kept", "set drain_filter emptied the old table without freeing it".to_string());
+                        }
+                        acc.out.res = format!("yielded {} left {}", yielded.len(), slot.model.len());
+                        self.post_set(acc, si, before, stats, Cost::Exempt, false, 0, false);
+                    }
+                    Err(pn) => self.handle_panic(acc, pn, &[]),
+                }
+            }
+            Op::SDrain { s, consume } | Op::SIntoIter { s, consume, .. } => {
+                let si = *s as usize;
+                let before = self.sets[si].s.verif_state();
+                let into = matches!(op, Op::SIntoIter { .. });
+                let new_cap = if let Op::SIntoIter { new_cap, .. } = op { *new_cap } else { 0 };
+                let h = self.cfg.set_hashers[si].clone();
+                let slot = &mut self.sets[si];
+                let taken: Option<Set<K>> = if into { Some(std::mem::replace(&mut slot.s, new_set::<K>(&h, new_cap.min(1 << 12)))) } else { None };
+                let model = std::mem::take(&mut slot.model);
+                let total = model.len();
+                let mut yielded: BTreeSet<u32> = BTreeSet::new();
+                let mut wrong: Vec<String> = Vec::new();
+                let limit = match consume {
+                    Consume::All => usize::MAX,
+                    Consume::DropAfter(k) | Consume::ForgetAfter(k) => *k as usize,
+                };
+                fn pump<I: Iterator + ExactSizeIterator>(mut it: I, total: usize, limit: usize, yielded: &mut BTreeSet<u32>, wrong: &mut Vec<String>, forget: bool, check: &dyn Fn(I::Item, &BTreeSet<u32>, &mut Vec<String>) -> u32) {
+                    loop {
+                        let remaining = total - yielded.len().min(total);
+                        let (lo, hi) = sut(|| it.size_hint());
+                        let l = sut(|| it.len());
+                        if lo != remaining || hi != Some(remaining) || l != remaining {
+                            wrong.push(format!("set drain/into_iter: size_hint=({},{:?}) len={} but {} remain", lo, hi, l, remaining));
+                            break;
+                        }
+                        if yielded.len() >= limit {
+                            break;
+                        }
+                        match sut(|| it.next()) {
+                            Some(x) => {
+                                let kv = check(x, yielded, wrong);
+                                yielded.insert(kv);
+                            }
+                            None => {
+                                if yielded.len() != total {
+                                    wrong.push(format!("set drain/into_iter ended after {} of {}", yielded.len(), total));
+                                }
+                                for _ in 0..3 {
+                                    if sut(|| it.next()).is_some() {
+                                        wrong.push("set drain/into_iter yielded after None".to_string());
+                                    }
+                                }
+                                break;
+                            }
+                        }
+                    }
+                    if forget {
+                        std::mem::forget(it)
+                    } else {
+                        sut(|| drop(it))
+                    }
+                }
+                let forget = matches!(consume, Consume::ForgetAfter(_));
+                let chk = |k: K, yielded: &BTreeSet<u32>, wrong: &mut Vec<String>| -> u32 {
+                    k.check("set drain yield");
+                    match model.get(&k.kv()) {
+                        Some(&kid) if !yielded.contains(&k.kv()) && (k.oid() == 0 || k.oid() == kid) => {}
+                        _ => wrong.push(format!("set drain/into_iter yielded {} unexpectedly", k.kv())),
+                    }
+                    k.kv()
+                };
+                let co = call(|| match taken {
+                    Some(old) => pump(sut(|| old.into_iter()), total, limit, &mut yielded, &mut wrong, forget, &chk),
+                    None => pump(sut(|| slot.s.drain()), total, limit, &mut yielded, &mut wrong, forget, &chk),
+                });
+                let stats = (co.hashes, co.alloc.allocs);
+                match co.result {
+                    Ok(()) => {
+                        for w in wrong {
+                            acc.anomaly("iter-mismatch", w);
+                            acc.out.fatal = true;
+                        }
+                        if forget {
+                            self.account_forgotten(acc, tables_of(&before));
+                            let ids: Vec<u64> = model.iter().filter(|(kv, _)| !yielded.contains(kv)).map(|(_, &kid)| kid).collect();
+                            mark_forgotten(ids.into_iter());
+                        }
+                        let slot = &mut self.sets[si];
+                        slot.countdown = None;
+                        if !into {
+                            let after = slot.s.verif_state();
+                            if slot.s.len() != 0 {
+                                acc.anomaly("iter-mismatch", format!("set not empty after drain: len()={}", slot.s.len()));
+                                acc.out.fatal = true;
+                            }
+                            if after.split {
+                                acc.internal("progress-empty-old-kept", "set drain left an old table allocated".to_string());
+                            }
+                            self.post_set(acc, si, before, stats, Cost::Exempt, false, 0, false);
+                        }
+                        acc.out.res = format!("consumed {} of {}", yielded.len(), total);
+                    }
+                    Err(pn) => self.handle_panic(acc, pn, &[]),
+                }
+            }
+            Op::SExtend { s, items, by_ref } => {
+                let si = *s as usize;
+                let before = self.sets[si].s.verif_state();
+                let objs: Vec<K> = items.iter().map(|&kv| K::make(kv)).collect();
+                let ids: Vec<u64> = objs.iter().map(|k| k.oid()).collect();
+                let slot = &mut self.sets[si];
+                let co = call(|| {
+                    if *by_ref && K::CLASS == ElemClass::Plain {
+                        if let (Some(ps), Some(po)) = ((&mut slot.s as &mut dyn Any).downcast_mut::<Set<u32>>(), (&objs as &dyn Any).downcast_ref::<Vec<u32>>()) {
+                            sut(|| ps.extend(po.iter()));
+                            return;
+                        }
+                    }
+                    sut(|| slot.s.extend(objs));
+                });
+                let stats = (co.hashes, co.alloc.allocs);
+                match co.result {
+                    Ok(()) => {
+                        for (i, &kv) in items.iter().enumerate() {
+                            slot.model.entry(kv).or_insert(ids[i]);
+                        }
+                        acc.out.res = format!("extended {}", items.len());
+                        self.post_set(acc, si, before, stats, Cost::Exempt, false, 0, false);
+                    }
+                    Err(pn) => self.handle_panic(acc, pn, &[]),
+                }
+            }
+            Op::SFromIter { s, items } => {
+                let si = *s as usize;
+                let h = self.cfg.set_hashers[si].clone();
+                ctx::with(|c| c.default_hasher = (h.seed, h.mode as u8));
+                let objs: Vec<K> = items.iter().map(|&kv| K::make(kv)).collect();
+                let ids: Vec<u64> = objs.iter().map(|k| k.oid()).collect();
+                let co = call(|| sut(|| objs.into_iter().collect::<Set<K>>()));
+                match co.result {
+                    Ok(newset) => {
+                        let slot = &mut self.sets[si];
+                        let old = std::mem::replace(&mut slot.s, newset);
+                        let _ = call(|| sut(|| drop(old)));
+                        slot.model.clear();
+                        for (i, &kv) in items.iter().enumerate() {
+                            slot.model.entry(kv).or_insert(ids[i]);
+                        }
+                        slot.countdown = rearm(&slot.s.verif_state());
+                        acc.out.res = format!("collected {}", items.len());
+                    }
+                    Err(pn) => self.handle_panic(acc, pn, &[]),
+                }
+            }
+            Op::SClear { s } => {
+                let si = *s as usize;
+                let before = self.sets[si].s.verif_state();
+                let slot = &mut self.sets[si];
+                let co = call(|| sut(|| slot.s.clear()));
+                let stats = (co.hashes, co.alloc.allocs);
+                match co.result {
+                    Ok(()) => {
+                        slot.model.clear();
+                        if slot.s.verif_state().split {
+                            acc.internal("progress-empty-old-kept", "set clear left an old table allocated".to_string());
+                        }
+                        acc.out.res = "()".to_string();
+                        self.post_set(acc, si, before, stats, Cost::Exempt, false, 0, false);
+                    }
+                    Err(pn) => self.handle_panic(acc, pn, &[]),
+                }
+            }
+            Op::SReserve { s, n } | Op::STryReserve { s, n, .. } => {
+                let si = *s as usize;
+                let fallible = matches!(op, Op::STryReserve { .. });
+                let oom = if let Op::STryReserve { oom, .. } = op { *oom } else { false };
+                let before = self.sets[si].s.verif_state();
+                let slot = &mut self.sets[si];
+                let (cap0, len0) = (slot.s.capacity(), slot.s.len());
+                if !arg_allowed(*n, cap0) {
+                    acc.out.res = "skipped".to_string();
+                    return;
+                }
+                let n = resolve_arg::<K, ()>(*n, cap0, len0);
+                let huge = is_overflow_huge(n);
+                if !fallible && !huge && n >= (1 << 24) {
+                    acc.out.res = "skipped".to_string();
+                    return;
+                }
+                let co = call(|| {
+                    if fallible {
+                        if oom {
+                            alloc::arm_oom(1);
+                        }
+                        sut(|| slot.s.try_reserve(n)).map_err(|e| format!("{:?}", e))
+                    } else {
+                        sut(|| slot.s.reserve(n));
+                        Ok(())
+                    }
+                });
+                let stats = (co.hashes, co.alloc.allocs);
+                let refused = co.alloc.oom_fired + co.alloc.cap_refused > 0;
+                acc.out.oom_fired = co.alloc.oom_fired + co.alloc.cap_refused;
+                match co.result {
+                    Ok(r) => {
+                        let (cap1, len1) = (slot.s.capacity(), slot.s.len());
+                        match &r {
+                            Ok(()) => {
+                                if len1.checked_add(n).map_or(true, |w| cap1 < w) {
+                                    acc.anomaly("capacity-contract", format!("set reserve({}) returned normally but capacity()={} len()={}", n, cap1, len1));
+                                }
+                                acc.out.res = "Ok".to_string();
+                            }
+                            Err(e) => {
+                                acc.out.res = "Err".to_string();
+                                if !huge && !refused {
+                                    acc.anomaly("capacity-contract", format!("set try_reserve({}) failed ({}) although nothing prevented it", n, e));
+                                }
+                            }
+                        }
+                        let cost = if before.split { Cost::Exempt } else { Cost::KeyAdding };
+                        self.post_set(acc, si, before, stats, cost, false, 0, false);
+                        self.sets[si].countdown = rearm(&self.sets[si].s.verif_state());
+                    }
+                    Err(pn) => {
+                        if fallible && !matches!(pn, Panic::Injected(..)) {
+                            acc.anomaly("capacity-contract", format!("set try_reserve({}) panicked", n));
+                        }
+                        if !fallible && huge {
+                            self.handle_panic(acc, pn, &["capacity-overflow"]);
+                        } else {
+                            self.handle_panic(acc, pn, &[]);
+                        }
+                    }
+                }
+            }
+            Op::SShrinkTo { s, .. } | Op::SShrinkToFit { s } => {
+                let si = *s as usize;
+                let before = self.sets[si].s.verif_state();
+                let slot = &mut self.sets[si];
+                let (cap0, len0) = (slot.s.capacity(), slot.s.len());
+                let n = if let Op::SShrinkTo { n, .. } = op { Some(resolve_arg::<K, ()>(*n, cap0, len0)) } else { None };
+                let co = call(|| match n {
+                    Some(n) => sut(|| slot.s.shrink_to(n)),
+                    None => sut(|| slot.s.shrink_to_fit()),
+                });
+                let stats = (co.hashes, co.alloc.allocs);
+                match co.result {
+                    Ok(()) => {
+                        let after = slot.s.verif_state();
+                        let (cap1, len1) = (slot.s.capacity(), slot.s.len());
+                        if after.main_buckets > before.main_buckets {
+                            acc.anomaly("capacity-contract", format!("set shrink enlarged the table: {} -> {} buckets", before.main_buckets, after.main_buckets));
+                        }
+                        let floor = len1.max(n.unwrap_or(0).min(cap0));
+                        if cap1 < floor || len1 != len0 {
+                            acc.anomaly("capacity-contract", format!("after set shrink_to({:?}) capacity()={} len()={} (was {})", n, cap1, len1, len0));
+                        }
+                        acc.out.res = "()".to_string();
+                        self.post_set(acc, si, before, stats, Cost::Exempt, false, 0, true);
+                        self.sets[si].countdown = rearm(&self.sets[si].s.verif_state());
+                    }
+                    Err(pn) => self.handle_panic(acc, pn, &[]),
+                }
+            }
+            Op::SCloneTo { src, dst } | Op::SCloneFrom { src, dst } => {
+                let (src, dst) = (*src as usize, *dst as usize);
+                if src == dst || src >= self.sets.len() || dst >= self.sets.len() {
+                    acc.out.res = "skipped".to_string();
+                    return;
+                }
+                let clone_from = matches!(op, Op::SCloneFrom { .. });
+                let src_before = self.sets[src].s.verif_state();
+                let (s, d) = two_mut(&mut self.sets, src, dst);
+                let co = call(|| {
+                    if clone_from {
+                        sut(|| d.s.clone_from(&s.s));
+                        None
+                    } else {
+                        Some(sut(|| s.s.clone()))
+                    }
+                });
+                match co.result {
+                    Ok(newset) => {
+                        if let Some(ns) = newset {
+                            let old = std::mem::replace(&mut d.s, ns);
+                            let _ = call(|| sut(|| drop(old)));
+                        }
+                        let mut model: BTreeMap<u32, u64> = BTreeMap::new();
+                        let mut bad: Vec<String> = Vec::new();
+                        for k in d.s.iter() {
+                            k.check("set clone contents");
+                            match s.model.get(&k.kv()) {
+                                Some(&kid) => {
+                                    if k.oid() != 0 && k.oid() == kid {
+                                        bad.push(format!("set clone shares object for element {}", k.kv()));
+                                    }
+                                }
+                                None => bad.push(format!("set clone holds {} which the source does not", k.kv())),
+                            }
+                            if model.insert(k.kv(), k.oid()).is_some() {
+                                bad.push(format!("set clone iterates {} twice", k.kv()));
+                            }
+                        }
+                        if model.len() != s.model.len() {
+                            bad.push(format!("set clone has {} elements, source {}", model.len(), s.model.len()));
+                        }
+                        if *d.s.hasher() != *s.s.hasher() {
+                            bad.push("set clone: destination hasher differs from source hasher".to_string());
+                        }
+                        d.model = model;
+                        d.countdown = None;
+                        for b in bad {
+                            acc.wrong(b);
+                        }
+                        if s.s.verif_state() != src_before {
+                            acc.anomaly("clone-changed-source", "set clone changed its source".to_string());
+                        }
+                        if d.s.verif_state().split {
+                            acc.anomaly("clone-left-split", "the set copy still has an old table".to_string());
+                        }
+                        self.cfg.set_hashers[dst] = self.cfg.set_hashers[src].clone();
+                        acc.out.res = "cloned".to_string();
+                    }
+                    Err(pn) => self.handle_panic(acc, pn, &[]),
+                }
+            }
+            Op::SAlgebra { a, b, alg } => self.op_set_algebra(acc, *a as usize, *b as usize, *alg),
+            Op::SIterCheck { s, clone_at } => {
+                let si = *s as usize;
+                let slot = &self.sets[si];
+                let total = slot.model.len();
+                let mut wrong: Vec<String> = Vec::new();
+                let mut got: Vec<u32> = Vec::new();
+                let co = call(|| {
+                    let mut it = sut(|| slot.s.iter());
+                    let mut side = None;
+                    loop {
+                        let remaining = total - got.len().min(total);
+                        let (lo, hi) = sut(|| it.size_hint());
+                        if lo != remaining || hi != Some(remaining) || sut(|| it.len()) != remaining {
+                            wrong.push(format!("set iter: size_hint=({},{:?}) but {} remain", lo, hi, remaining));
+                            break;
+                        }
+                        if *clone_at == Some(got.len() as u32) && side.is_none() {
+                            side = Some((sut(|| it.clone()), got.len()));
+                            let _ = sut(|| format!("{:?}", it));
+                        }
+                        match sut(|| it.next()) {
+                            Some(k) => {
+                                k.check("set iter");
+                                got.push(k.kv());
+                            }
+                            None => break,
+                        }
+                        if got.len() > total + 2 {
+                            break;
+                        }
+                    }
+                    for _ in 0..3 {
+                        if sut(|| it.next()).is_some() {
+                            wrong.push("set iter yielded after None".to_string());
+                        }
+                    }
+                    if let Some((mut c, at)) = side {
+                        let mut n = at;
+                        while let Some(k) = sut(|| c.next()) {
+                            if n < got.len() && k.kv() != got[n] {
+                                wrong.push(format!("cloned set iterator diverged at {}", n));
+                                break;
+                            }
+                            n += 1;
+                        }
+                        if n != total {
+                            wrong.push(format!("cloned set iterator yielded {} of {}", n, total));
+                        }
+                    }
+                });
+                match co.result {
+                    Ok(()) => {
+                        let mut g = got.clone();
+                        g.sort_unstable();
+                        let want: Vec<u32> = slot.model.keys().copied().collect();
+                        if wrong.is_empty() && g != want {
+                            wrong.push(format!("set iter yielded {:?}, contents {:?}", g, want));
+                        }
+                        for w in wrong {
+                            acc.anomaly("iter-mismatch", w);
+                            acc.out.fatal = true;
+                        }
+                        acc.out.res = format!("iter {}", got.len());
+                    }
+                    Err(pn) => self.handle_panic(acc, pn, &[]),
+                }
+            }
+            Op::SDebugCheck { s } => {
+                let si = *s as usize;
+                let slot = &self.sets[si];
+                let co = call(|| sut(|| format!("{:?}", slot.s)));
+                match co.result {
+                    Ok(text) => {
+                        let inner = text.trim_start_matches('{').trim_end_matches('}');
+                        let mut got: Vec<String> = if inner.is_empty() { vec![] } else { inner.split(", ").map(|x| x.to_string()).collect() };
+                        got.sort();
+                        let mut want: Vec<String> = slot.model.keys().map(|&kv| format!("{:?}", crate::exec_map::DbgKey::<K>(kv, std::marker::PhantomData))).collect();
+                        want.sort();
+                        if got != want {
+                            acc.wrong(format!("set Debug output {:?} does not match contents {:?}", got, want));
+                        }
+                        acc.out.res = format!("debug {}", got.len());
+                    }
+                    Err(pn) => self.handle_panic(acc, pn, &[]),
+                }
+            }
+            Op::SProbe { s, max } => {
+                let si = *s as usize;
+                let before = self.sets[si].s.verif_state();
+                let slot = &mut self.sets[si];
+                let (cap, len) = (slot.s.capacity(), slot.s.len());
+                if cap < len {
+                    acc.internal("capacity-below-len", format!("set capacity()={} < len()={}", cap, len));
+                    return;
+                }
+                if K::CLASS == ElemClass::Zst {
+                    acc.out.res = "probe skipped (one possible element)".to_string();
+                    return;
+                }
+                let n = (cap - len).min(*max as usize);
+                let mut last_cap = cap;
+                let mut inserted = 0usize;
+                for _ in 0..n {
+                    let kv = self.fresh_key;
+                    self.fresh_key += 1;
+                    let key = K::make(kv);
+                    let kid = key.oid();
+                    let co = call(|| sut(|| slot.s.insert(key)));
+                    match co.result {
+                        Ok(r) => {
+                            if !r {
+                                acc.wrong(format!("set probe: fresh element {} was already present", kv));
+                            }
+                            slot.model.insert(kv, kid);
+                            inserted += 1;
+                            if co.alloc.allocs > 0 {
+                                acc.anomaly("probe-alloc", format!("set insertion {} of {} within capacity allocated a table", inserted, n));
+                            }
+                            let c = slot.s.capacity();
+                            if c < last_cap {
+                                acc.anomaly("probe-capacity-decreased", format!("set capacity() went from {} to {} during the probe", last_cap, c));
+                            }
+                            last_cap = c;
+                        }
+                        Err(pn) => {
+                            acc.anomaly("probe-panic", format!("set insertion {} of {} within capacity panicked: {:?}", inserted + 1, n, pn));
+                            acc.out.fatal = true;
+                            return;
+                        }
+                    }
+                }
+                let after = slot.s.verif_state();
+                if inserted >= 1 && inserted == cap - len && after.split {
+                    acc.anomaly("probe-resize-pending", format!("set resize still pending after filling to capacity ({} insertions)", inserted));
+                }
+                acc.out.before = Some(before);
+                acc.out.after = Some(after);
+                slot.countdown = rearm(&after);
+                acc.out.res = format!("probe {}", inserted);
+            }
+            _ => {
+                acc.out.res = "unimplemented".to_string();
+            }
+        }
+    }
+
+    fn op_set_algebra(&mut self, acc: &mut Acc, a: usize, b: usize, alg: SetAlg) {
+        if a >= self.sets.len() || b >= self.sets.len() {
+            acc.out.res = "skipped".to_string();
+            return;
+        }
+        let h = self.cfg.set_hashers[a].clone();
+        ctx::with(|c| c.default_hasher = (h.seed, h.mode as u8));
+        let (sa, sb) = (&self.sets[a], &self.sets[b]);
+        let ka: BTreeSet<u32> = sa.model.keys().copied().collect();
+        let kb: BTreeSet<u32> = sb.model.keys().copied().collect();
+        let collect = |it: &mut dyn Iterator<Item = &K>| -> Vec<u32> {
+            let mut v = Vec::new();
+            while let Some(k) = sut(|| it.next()) {
+                k.check("set algebra yield");
+                v.push(k.kv());
+                if v.len() > ka.len() + kb.len() + 4 {
+                    break;
+                }
+            }
+            for _ in 0..2 {
+                if sut(|| it.next()).is_some() {
+                    v.push(u32::MAX);
+                }
+            }
+            v
+        };
+        let owned = |s: Set<K>| -> Vec<u32> {
+            let v: Vec<u32> = s.iter().map(|k| k.kv()).collect();
+            sut(|| drop(s));
+            v
+        };
+        enum Res {
+            Elems(Vec<u32>),
+            Bool(bool),
+        }
+        let co = call(|| match alg {
+            SetAlg::Union => Res::Elems(collect(&mut sut(|| sa.s.union(&sb.s)))),
+            SetAlg::Intersection => Res::Elems(collect(&mut sut(|| sa.s.intersection(&sb.s)))),
+            SetAlg::Difference => Res::Elems(collect(&mut sut(|| sa.s.difference(&sb.s)))),
+            SetAlg::SymmetricDifference => Res::Elems(collect(&mut sut(|| sa.s.symmetric_difference(&sb.s)))),
+            SetAlg::BitOr => Res::Elems(owned(sut(|| &sa.s | &sb.s))),
+            SetAlg::BitAnd => Res::Elems(owned(sut(|| &sa.s & &sb.s))),
+            SetAlg::BitXor => Res::Elems(owned(sut(|| &sa.s ^ &sb.s))),
+            SetAlg::Sub => Res::Elems(owned(sut(|| &sa.s - &sb.s))),
+            SetAlg::IsSubset => Res::Bool(sut(|| sa.s.is_subset(&sb.s))),
+            SetAlg::IsSuperset => Res::Bool(sut(|| sa.s.is_superset(&sb.s))),
+            SetAlg::IsDisjoint => Res::Bool(sut(|| sa.s.is_disjoint(&sb.s))),
+            SetAlg::Eq => Res::Bool(sut(|| sa.s == sb.s) && sut(|| sb.s == sa.s) == sut(|| sa.s == sb.s)),
+        });
+        match co.result {
+            Ok(Res::Elems(mut got)) => {
+                let want: Vec<u32> = match alg {
+                    SetAlg::Union | SetAlg::BitOr => ka.union(&kb).copied().collect(),
+                    SetAlg::Intersection | SetAlg::BitAnd => ka.intersection(&kb).copied().collect(),
+                    SetAlg::Difference | SetAlg::Sub => ka.difference(&kb).copied().collect(),
+                    _ => ka.symmetric_difference(&kb).copied().collect(),
+                };
+                got.sort_unstable();
+                if got != want {
+                    acc.wrong(format!("{:?} of sets {:?} and {:?} yielded {:?}, expected {:?}", alg, ka.iter().take(12).collect::<Vec<_>>(), kb.iter().take(12).collect::<Vec<_>>(), got.iter().take(24).collect::<Vec<_>>(), want.iter().take(24).collect::<Vec<_>>()));
+                }
+                acc.out.res = format!("{:?} {}", alg, got.len());
+            }
+            Ok(Res::Bool(got)) => {
+                let want = match alg {
+                    SetAlg::IsSubset => ka.is_subset(&kb),
+                    SetAlg::IsSuperset => ka.is_superset(&kb),
+                    SetAlg::IsDisjoint => ka.is_disjoint(&kb),
+                    _ => ka == kb,
+                };
+                if got != want {
+                    acc.wrong(format!("{:?} = {} expected {}", alg, got, want));
+                }
+                acc.out.res = format!("{:?} {}", alg, got);
+            }
+            Err(pn) => self.handle_panic(acc, pn, &[]),
+        }
+        let (sa_st, sb_st) = (self.sets[a].s.verif_state(), self.sets[b].s.verif_state());
+        if sa_st.split || sb_st.split {
+            acc.probe("set-algebra-with-split-operand");
+        }
+        acc.out.before = Some(sa_st);
+        acc.out.after = Some(sb_st);
     }
 }
